@@ -44,6 +44,22 @@ CHECKS["C08"] = dict(
     text="Every read/write call on data and parity files of real sync and scrub runs is a fault point; the post-state must show a failing status and the stripe unsynced or bad, and the follow-up fix -e / sync / check are validated against the specification. Reader-side faults hold; writer-side faults reproduce the two announced defects (F3, F4), reported as known findings by signature.",
     note="One injected fault per run; faults injected at the libc call.")
 
+CHECKS["C09"] = dict(
+    cat="fault_enumeration", design="6/C09",
+    technique="ContentFormat.tla (normative encoder/strict decoder) and ContentSave.tla (tmp/fsync/verify/rename steps, Crash anywhere) checked by TLC; every bit flip and truncation of content files fed to the ASan build; kill points inside the save sequence with 1..4 copies, traces validated against ContentSaveTrace.tla",
+    text="Every single-bit flip and every truncation of content files of all shapes (TLC-generated and tool-written, formats 2 and 3) must be rejected by status/diff/check/sync of the ASan+UBSan build without a sanitizer report and without changing any file; the save sequence is killed at every system call and every copy must be a complete old, pre-sync or final image; the recorded call sequence must be a behaviour of ContentSave.tla.",
+    note="Memory safety is observed by ASan/UBSan (auxiliary observer outside the TLA+ argument); records appended after the N record are outside the property's statement (listed in the evidence).")
+CHECKS["C10"] = dict(
+    cat="translation_validation", design="6/C10",
+    technique="ContentFormat.tla as normative encoder: TLC-generated states encoded by TLC are loaded/rewritten/listed by the tool (spec->code); every content file written by the tool in seeded histories is decoded independently and re-encoded by the transliteration of the spec that is checked against TLC each run (code->spec)",
+    text="Two encoders of the same format (the TLA+ one and the tool's) are compared byte for byte in both directions over TLC-generated states (every record kind, run shapes, boundary values) and over the states the tool reaches in random histories; test-rewrite must reproduce files; every content copy must load to the same state.",
+    note="Fields refreshed on rewrite (free/total block counts, parity paths in Q records) are compared modulo exactly those; hash sizes other than 2/4/8/16 exist only in the model.")
+CHECKS["C14"] = dict(
+    cat="model_checking", design="6/C14",
+    technique="guards of Sync in Array.tla (empty/rewritten disk, zero-size file, short parity) validated by TLC on traces of real refused and overridden syncs; configuration guards and the lock as Refused steps of ArrayTrace.tla with digests before/after; second command started while the first is SIGSTOPped by the shim",
+    text="Each history applies every trigger on some disk/level with or without other pending changes; TLC checks that the specification's Sync refuses exactly when the binary does, that a refusal changes neither content nor parity (missing = empty parity file), and that the override lets the same sync proceed; the lock is exercised by stopping a running command at a random system call and starting every other command.",
+    note="Abstractions of Array.tla; the lock is observed at process level (flock), start offsets sampled.")
+
 ARRAY_NOTE = ("Abstractions of Array.tla: hash injective on the block values used, parity as encoded vector (MDS, discharged by C03), "
               "one content copy observed for the state (copy equality checked separately), scenarios without usable inodes; "
               "random 1 KiB blocks make collisions negligible.")
